@@ -13,6 +13,8 @@ def check(ctx):
     from .common import compiled_scanner_is_frozen
     compiled_scanner_is_frozen(ctx, "C02.m")   # nothing edits a compiled scanner after the pipeline produced it (closed writer sets)
     minimizer_rules.analyze(ctx, RULES)
+    from .common import key_types_compare_structurally
+    key_types_compare_structurally(ctx, "C02.n")   # the signature is a map key: it must compare structurally
     # the property is observed on scanners obtained through build(): the cache must hand back the configuration's own compilation
     from . import adaptors
     adaptors.analyze(ctx, ("C03.i",))
